@@ -2,6 +2,7 @@ CONSTANTS
   MaxCoord = 6
   Gap = 2
   MayFail = TRUE
+  Guarded = FALSE
 SPECIFICATION Spec
 PROPERTY Terminates
 CHECK_DEADLOCK FALSE
